@@ -62,6 +62,23 @@ def count_kind(t, kinds):
     return (1 if t["k"] in kinds else 0) + sum(count_kind(c, kinds) for c in t["a"])
 
 
+def _has_packaged_seq(t):
+    if t["k"] == "tuple" and t["a"] and t["a"][0]["k"] == "call":
+        return True
+    return any(_has_packaged_seq(c) for c in t["a"])
+
+
+def _select_over_projection(t):
+    if t["k"] == "call" and t["a"][0]["k"] == "name" and t["a"][0]["s"] in ("Select", "SelectMany", "Where") \
+            and t["n"] == 2 and t["a"][1]["k"] == "sub":
+        return True
+    return any(_select_over_projection(c) for c in t["a"])
+
+
+def nested_select_over_package(t):
+    return _has_packaged_seq(t) and _select_over_projection(t)
+
+
 def run(prop, tier):
     rep = common.Report(prop, tier)
     plan = PLANS[prop][tier]
@@ -76,7 +93,10 @@ def run(prop, tier):
             # the property's antecedent: some earlier stage packages values
             progs = [p for p in progs if has_kind(p, PACK)]
         if keep is not None:
-            progs = common.subsample_stratified(progs, keep, salt=name)
+            # the class the property singles out - a nested Select over a packaged sequence - is always kept whole
+            prio = [p for p in progs if prop == "C14" and nested_select_over_package(p)]
+            rest = [p for p in progs if not (prop == "C14" and nested_select_over_package(p))]
+            progs = prio + common.subsample_stratified(rest, max(0, keep - len(prio)), salt=name)
         fam_counts[name] = {"generated": total, "replayed": len(progs), "budget": budget,
                             "exhaustive": keep is None or total <= keep}
         for p in progs:
